@@ -155,6 +155,7 @@ class Verdict:
         self.known, self.fixed = load_known(pid)
         self.vacuity = []
         self.tlc_runs = []
+        self.replay_mode = False
 
     def add_tlc(self, name, res, constants=None):
         self.states += res.distinct
@@ -197,7 +198,7 @@ class Verdict:
                 if per[key] > 2 or shown >= 8:
                     continue
                 shown += 1
-                path = os.path.join(rdir, "%s_%s_%d.json" % (self.pid, tier(), i))
+                path = os.path.join(rdir, "%s_%s_%d.json" % (self.pid, "replayed" if self.replay_mode else tier(), i))
                 with open(path, "w") as f:
                     json.dump({"property": self.pid, "clause": v["clause"], "detail": v["detail"],
                                "replay": v["replay"]}, f, indent=1, default=str)
@@ -215,8 +216,9 @@ class Verdict:
         ev = {"property_id": self.pid, "tier": tier(), "seed": seed(), "level": level, "coverage": cov,
               "assumptions": self.assumptions, "wall_s": round(time.time() - self.t0, 2),
               "violations": len(self.violations)}
-        with open(os.path.join(EVID, self.pid + ".json"), "w") as f:
-            json.dump(ev, f, indent=1, default=str)
+        if not self.replay_mode:
+            with open(os.path.join(EVID, self.pid + ".json"), "w") as f:
+                json.dump(ev, f, indent=1, default=str)
         print("%s %s: states=%d transitions=%d traces=%d violations=%d drift=%d wall=%.1fs" % (
             self.pid, tier(), self.states, self.transitions, self.traces, len(self.violations), len(self.drift), time.time() - self.t0))
         return rc
